@@ -60,6 +60,7 @@ pub fn gen_filter(rng: &mut Rng, reg: &PortableRegistry) -> (Vec<u32>, &'static 
 pub fn run(a: &Args) -> Report {
     let seed = a.u("seed", 1);
     let thorough = a.thorough();
+    let prop = a.prop();
     let cfg = a.run_cfg(if thorough { 3_000_000 } else { 100_000 });
     run_parallel(&cfg, |i, rep| {
         let mut rng = Rng::derive(seed ^ 0x10, i);
@@ -105,10 +106,22 @@ pub fn run(a: &Args) -> Report {
         let map = match res {
             Ok(m) => m,
             Err(p) => {
-                rep.violation("C10/panic", format!("retain panicked on a well-formed registry: {}", p), case());
+                rep.violation(&format!("{}/panic", prop), format!("retain panicked on a well-formed registry: {}", p), case());
                 return;
             }
         };
+        if prop == "C01" {
+            // C01 judges only that the produced registry is dense and closed
+            match wf::check(&after, true) {
+                Ok(st) => {
+                    rep.count("retained_registries_checked", 1);
+                    rep.count("refs_walked", st.refs.iter().sum());
+                }
+                Err(e) => rep.violation(if e.contains("mentions") { "C01/retained-not-closed" } else { "C01/retained-not-dense" }, e, case()),
+            }
+            let _ = map;
+            return;
+        }
         if asked.iter().any(|x| *x as usize >= before.types.len()) {
             rep.violation("C10/filter-asked-foreign-id", "the filter was asked about an id that is not in the registry".into(), case());
         }
